@@ -47,7 +47,7 @@ func cfg() *specgen.SpecCfg {
 		Simple:  specgen.SimpleOpts{Defaults: true, MaxDepth: 2, Extensions: true},
 		MinDefs: 1, MaxDefs: 4, MinPaths: 1, MaxPaths: 3, MaxParams: 3, AcyclicRefs: true,
 		Tags: true, Meta: true, Security: true, Extensions: true, SharedParams: true, RespHeaders: true,
-		FormData: true, Body: true, DefaultResponse: true, OpConsumes: true, UniqueParamNames: true,
+		FormData: true, Body: true, DefaultResponse: true, OpConsumes: true, UniqueParamNames: true, MissingOpIDs: true,
 		Methods: []string{"get", "put", "post", "delete", "patch"}, Text: text,
 	}
 }
